@@ -664,9 +664,9 @@ func init() {
 		Scenarios: func(tier string) []*core.Scenario {
 			lq := []int64{0, 1, -1, 7, 255, 0x10, 0x7fffffff, 3, 0x80000000, 0xfffff000}
 			if tier == "thorough" {
-				return []*core.Scenario{c06Trees(2, lq, "trees_le2"), c06Trees(3, []int64{0, 1, -1, 7, 255}, "trees_le3"), c06Positions(lq), c06Pairs(), c06Spellings()}
+				return []*core.Scenario{c06Trees(2, lq, "trees_le2"), c06Trees(3, []int64{0, 1, -1, 7, 255}, "trees_le3"), c06Positions(lq), c06Pairs(), c06Spellings(), c06Scale()}
 			}
-			return []*core.Scenario{c06Trees(2, lq, "trees_le2"), c06Positions(lq), c06Pairs(), c06Spellings()}
+			return []*core.Scenario{c06Trees(2, lq, "trees_le2"), c06Positions(lq), c06Pairs(), c06Spellings(), c06Scale()}
 		},
 		Assumptions: []string{
 			"reference semantics: arbitrary-precision integers, * / % bind tighter than + -, equal precedence associates left to right, / truncates toward zero, % takes the sign of the dividend; an expression whose value or an intermediate value leaves int64 is not judged",
